@@ -1690,6 +1690,10 @@ func applyGC(cells []*btpb.Cell, rule *btapb.GcRule, now bigtable.Timestamp) []*
 		return cells[:si]
 	case *btapb.GcRule_MaxNumVersions:
 		n := int(rule.MaxNumVersions)
+		if n < 0 {
+			// not a meaningful rule (and it would slice out of range): condemn nothing
+			return cells
+		}
 		if len(cells) > n {
 			cells = cells[:n]
 		}
